@@ -1,5 +1,6 @@
 import Lm.Inv.C12VisitList
 import Lm.Inv.C12Old
+import Lm.Inv.C12Dtor
 /-!
 # C12 — Queue, stack, list keep their order discipline under all ops and iterators
 
@@ -131,6 +132,63 @@ theorem C12_list_iterator_visits_each_once (eq : Val → Val → Bool) (dtor cmp
   have hR := (ListM.run_R eq before (ListM.init_R dtor cmp) hb).1
   exact (ListM.lvis_run eq ops (ListM.lvis_itrNew hR h0 hne) hops).result
 
+/-! ## The destructor runs exactly once per dropped element, never for a returned one
+
+`Ledger` (computed from the history with the array machine) records what the caller did: the
+pointers it stored (`enq`/`push`/`ins`/`it ins`, and the new pointer of a successful `it set`), the
+pointers handed back to it by `deq`/`pop`, and the pointers it overwrote with `it set`.
+`destroyed` are the arguments of the destructor calls of the chain model, in order. -/
+
+/-- Queue with a destructor: for every pointer value, counted with multiplicity,
+stored = still inside + handed back + overwritten by `it set` + destroyed. -/
+theorem C12_queue_destructor_exactly_once (ops : List Queue.Op) (h : Queue.okRun (Queue.new true) ops = true) (y : Val) :
+    let s := Queue.run (Queue.new true) ops
+    let L := Spec.C12.Queue.ledger (Spec.C12.Queue.init true) {} ops
+    L.entered.count y = (content s).count y + L.handed.count y + L.over.count y + (destroyed (s.log.map absEv)).count y := by
+  intro s L
+  have hr := C12_queue_refines_fifo true ops h
+  have hb := Spec.C12.Queue.bal_run (L := {}) ops (a := Spec.C12.Queue.init true) ⟨by intro y; rfl, rfl⟩
+  rw [hr.2.1, hr.2.2]
+  exact hb.1 y
+
+theorem C12_stack_destructor_exactly_once (ops : List Stack.Op) (h : Stack.okRun (Stack.new true) ops = true) (y : Val) :
+    let s := Stack.run (Stack.new true) ops
+    let L := Spec.C12.Stack.ledger (Spec.C12.Stack.init true) {} ops
+    L.entered.count y = (content s).count y + L.handed.count y + L.over.count y + (destroyed (s.log.map absEv)).count y := by
+  intro s L
+  have hr := C12_stack_refines_lifo true ops h
+  have hb := Spec.C12.Stack.bal_run (L := {}) ops (a := Spec.C12.Stack.init true) ⟨by intro y; rfl, rfl⟩
+  rw [hr.2.1, hr.2.2]
+  exact hb.1 y
+
+theorem C12_list_destructor_exactly_once (eq : Val → Val → Bool) (cmp : Bool) (ops : List ListM.Op)
+    (h : ListM.okRun eq (ListM.new true cmp) ops = true) (y : Val) :
+    let s := ListM.run eq (ListM.new true cmp) ops
+    let L := Spec.C12.ListM.ledger eq (Spec.C12.ListM.init true cmp) {} ops
+    L.entered.count y = (content s).count y + L.handed.count y + L.over.count y + (destroyed (s.log.map absEv)).count y := by
+  intro s L
+  have hr := C12_list_refines_multiset eq true cmp ops h
+  have hb := Spec.C12.ListM.bal_run eq (L := {}) ops (a := Spec.C12.ListM.init true cmp) ⟨by intro y; rfl, rfl⟩
+  rw [hr.2.1, hr.2.2]
+  exact hb.1 y
+
+/-- Without a destructor nothing is ever destroyed (all three containers). -/
+theorem C12_no_destructor_no_calls :
+    (∀ ops, Queue.okRun (Queue.new false) ops = true → destroyed ((Queue.run (Queue.new false) ops).log.map absEv) = []) ∧
+    (∀ ops, Stack.okRun (Stack.new false) ops = true → destroyed ((Stack.run (Stack.new false) ops).log.map absEv) = []) ∧
+    (∀ eq cmp ops, ListM.okRun eq (ListM.new false cmp) ops = true →
+      destroyed ((ListM.run eq (ListM.new false cmp) ops).log.map absEv) = []) := by
+  refine ⟨?_, ?_, ?_⟩
+  · intro ops h
+    rw [(C12_queue_refines_fifo false ops h).2.2]
+    exact (Spec.C12.Queue.nod_run ops (a := Spec.C12.Queue.init false) ⟨rfl, rfl⟩).2
+  · intro ops h
+    rw [(C12_stack_refines_lifo false ops h).2.2]
+    exact (Spec.C12.Stack.nod_run ops (a := Spec.C12.Stack.init false) ⟨rfl, rfl⟩).2
+  · intro eq cmp ops h
+    rw [(C12_list_refines_multiset eq false cmp ops h).2.2]
+    exact (Spec.C12.ListM.nod_run eq ops (a := Spec.C12.ListM.init false cmp) ⟨rfl, rfl⟩).2
+
 /-! ## Non-vacuity: concrete histories -/
 
 /-- queue: remove the last element through an iterator, keep using the queue (the D-12a scenario) -/
@@ -143,6 +201,10 @@ example : Queue.trace (Queue.new true) demoQ =
      .ptr 5, .int 0, .ptr 8, .ptr 0, .int 0] := by decide
 example : (Queue.run (Queue.new true) demoQ).log =
     [.cur (some ⟨0, 5⟩), .cur (some ⟨1, 6⟩), .cur (some ⟨2, 7⟩), .dtor 7, .dtor 9] := by decide
+
+example : Spec.C12.Queue.ledger (Spec.C12.Queue.init true) {} demoQ =
+    { entered := [5, 6, 7, 9, 8], handed := [5, 8], over := [6] } := by decide
+example : destroyed ((Queue.run (Queue.new true) demoQ).log.map absEv) = [7, 9] := by decide
 
 /-- list with comparator `v % 8`: insertion through the iterator, removal of inserted and current -/
 def demoL : List ListM.Op :=
